@@ -13,6 +13,8 @@ ASSUMPTIONS = [
     'pairing: eigvals[i] belongs to eigvecs[:, i] for i < min(len(eigvals), eigvecs.shape[1])',
     'reduced_dof=True (dense path only, documented): the returned pairs must solve the problem restricted to the '
     'amplitudes at positions 1,2 (mod 3) of the active set and be zero elsewhere',
+    'bay pencils (flange/base blocks orders of magnitude lighter than the skin) are ill conditioned: their lowest frequencies are '
+    'compared to 1e-4, the eigen-residual (1e-5, norm-wise) remains the primary oracle there',
     'frequencies below 1e-6 rad/s are dropped by the package when sort=True; generated spectra start at 0.5 rad/s',
 ]
 R3S = 'R3-freq-sort-rounded-key'
@@ -65,7 +67,8 @@ def ref_freqs(K, M, idx):
     return np.sqrt(np.maximum(ev, 0.))
 
 
-def judge(ctx, name, K, M, active, eigvals, eigvecs, k_req, sort, reduced=False, sparse=True, tol=1e-6, claim_lowest=True):
+def judge(ctx, name, K, M, active, eigvals, eigvecs, k_req, sort, reduced=False, sparse=True, tol=1e-6, claim_lowest=True,
+          full_spectrum=True, val_tol=1e-6):
     K = dense(K)
     M = dense(M)
     n = K.shape[0]
@@ -114,9 +117,10 @@ def judge(ctx, name, K, M, active, eigvals, eigvecs, k_req, sort, reduced=False,
                 raise Violation(name + '.ascending', msg)
         if claim_lowest:
             kk = min(k_req, npair, ref.size)
-            if sparse:
-                # the k lowest frequencies
-                ctx.close(name + '.lowest', np.sort(w[:kk]), ref[:kk], 1e-6, bucket=name + '.lowest')
+            if sparse or not full_spectrum:
+                # the k lowest frequencies (package pencils: the high end of the spectrum of an ill-conditioned mass matrix is
+                # not determined to 1e-6 by any dense solver, so only the requested lowest values are compared)
+                ctx.close(name + '.lowest', np.sort(w[:kk]), ref[:kk], val_tol, bucket=name + '.lowest')
             else:
                 # dense path returns the whole spectrum
                 ctx.ok(w.size == ref.size, name + '.count', 'dense path returned %d frequencies, %d expected' % (w.size, ref.size))
@@ -177,12 +181,13 @@ def check_panel(case, ctx):
     ctx.nontrivial = active.size < pd.ndof
     with package(name):
         ev, evec = freq(K, M, tol=0, sparse_solver=case['sparse'], silent=True, num_eigvalues=k)
-    judge(ctx, name, K, M, active, ev, evec, k, True, sparse=case['sparse'], tol=1e-5)
+    judge(ctx, name, K, M, active, ev, evec, k, True, sparse=case['sparse'], tol=1e-5, full_spectrum=False)
     p2 = pkg.make_panel(case)
     p2.num_eigvalues = k
     with package(name + '.Panel.freq'):
         p2.freq(silent=True, sparse_solver=case['sparse'])
-    judge(ctx, name + '.Panel.freq', p2.k0, p2.kM, active, p2.eigvals, p2.eigvecs, k, True, sparse=case['sparse'], tol=1e-5)
+    judge(ctx, name + '.Panel.freq', p2.k0, p2.kM, active, p2.eigvals, p2.eigvecs, k, True, sparse=case['sparse'], tol=1e-5,
+          full_spectrum=False)
     kk = min(k, len(ev), len(p2.eigvals))
     ctx.close('Panel.freq==analysis.freq', np.real(p2.eigvals[:kk]), np.real(ev[:kk]), 1e-6, bucket='Panel.freq!=analysis.freq')
 
@@ -215,7 +220,7 @@ def check_bay(case, ctx):
     ctx.nontrivial = len(stiffs) > 0
     with package(name):
         ev, evec = freq(K, M, tol=0, sparse_solver=case['sparse'], silent=True, num_eigvalues=k)
-    judge(ctx, name, K, M, active, ev, evec, k, True, sparse=case['sparse'], tol=1e-5)
+    judge(ctx, name, K, M, active, ev, evec, k, True, sparse=case['sparse'], tol=1e-5, full_spectrum=False, val_tol=1e-4)
 
 
 @st.composite
